@@ -63,6 +63,20 @@ def realDebug (m : J) : Option (List (String × Nat)) :=
   | some (.obj kvs) => some (sortPairs (kvs.map fun kv => (kv.1, kv.2.natD)))
   | _ => none
 
+def sortLits (xs : List (String × List LitLocation)) : List (String × List (Nat × Nat × Option String)) :=
+  let ys := xs.map fun e => (e.1, ((e.2.map fun l => (l.line, l.column, l.ident)).toArray.qsort fun a b =>
+    a.1 < b.1 || (a.1 == b.1 && a.2.1 < b.2.1)).toList)
+  (ys.toArray.qsort fun a b => a.1 < b.1).toList
+
+def realLiterals (j : J) : Option (List (String × List (Nat × Nat × Option String))) :=
+  match j with
+  | .obj _ =>
+    let xs := (j.getD "literals").arrD.map fun e =>
+      ((e.getD "value").strD, (e.getD "locations").arrD.map fun l =>
+        ({ ident := (l.getD "ident").str?, line := (l.getD "line").natD, column := (l.getD "column").natD } : LitLocation))
+    some (sortLits xs)
+  | _ => none
+
 structure Verdict where
   corr : List (String × J) := []       -- disagreements model vs implementation
   checks : List (String × J) := []     -- oracle failures on the implementation's output
@@ -103,6 +117,45 @@ def processRewrite (rec : J) : Verdict := Id.run do
         | some (path, a, b) =>
           v := v.addCorr "tree" (.obj [("path", jstr path), ("model", jstr a), ("real", jstr b)])
         | none => pure ()
+    -- oracles on the implementation's own output
+    match programFromJ pfx (rec.getD "out_mem") with
+    | .error _ => pure ()
+    | .ok outReal =>
+      let rm := rec.getD "metrics"
+      let ro : RealOut := { cfg := cfg, pfx := pfx, inp := p, out := outReal, status := realStatus,
+                            content := (rec.getD "content").strD,
+                            metricsCount := (rm.getD "instrumentedPropagation").natD,
+                            metricsDebug := realDebug rm }
+      if realStatus == "Modified" || realStatus == "NotModified" || realStatus == "Cancelled" then
+        for f in allChecks ro do
+          v := v.addCheck (f.prop ++ ":" ++ f.cls) (jstr f.detail)
+      -- C14: the literal report, against the specification evaluated on the *input* tree and against
+      -- the model evaluated on the model's transformed tree
+      if outcome == "ok" then
+        let src := stripBom (rec.getD "src").strD.toUTF8
+        let realLits := realLiterals (rec.getD "literals")
+        let specLits := if cfg.literals then some (sortLits (literalsResult src (collectLits p []))) else none
+        let modelLits := if cfg.literals then some (sortLits (literalsResult src (collectLits r.out []))) else none
+        if realLits != specLits then
+          v := v.addCheck "C14:report-differs-from-input-literals" (.obj [("spec", jstr (reprStr specLits)), ("real", jstr (reprStr realLits))])
+        if realLits != modelLits then
+          v := v.addCorr "literals" (.obj [("model", jstr (reprStr modelLits)), ("real", jstr (reprStr realLits))])
+      -- C08 (repository part): the printed text re-parses to the tree that was printed
+      match rec.get? "out_text" with
+      | some ot =>
+        match ot.get? "ast" with
+        | some a =>
+          match programFromJ pfx a true with
+          | .ok tText =>
+            if !(Node.normText tText == Node.normText outReal) then
+              let d := Node.diff pfx "" (Node.normText tText) (Node.normText outReal)
+              v := v.addCheck "C08:printed-text-reparses-to-a-different-tree"
+                (jstr (match d with | some (pa, a, b) => s!"at {pa}: text={a} memory={b}" | none => ""))
+            if tText.kindName != p.kindName then
+              v := v.addCheck "C08:program-kind-changed" (jstr (p.kindName ++ " -> " ++ tText.kindName))
+          | .error e => v := v.addCorr "convert-text" (jstr e)
+        | none => v := v.addCheck "C08:output-rejected-by-the-rewriter-parser" (jstr ((ot.getD "err").strD ++ (ot.getD "panic").strD))
+      | none => pure ()
     -- metrics
     if outcome == "ok" then
       let m := getMetrics cfg r (rec.getD "file").strD
